@@ -11,7 +11,9 @@ use tokio::select;
 use tracing::{info, warn};
 
 use super::manifest::*;
-use super::{DeleteVector, DiskRowset, MANIFEST_FILE_NAME, StorageOptions, StorageResult};
+use super::{
+    DeleteVector, DiskRowset, MANIFEST_FILE_NAME, StorageOptions, StorageResult, TracedStorageError,
+};
 
 /// The operations sent to the version manager. Compared with manifest entries, operations
 /// like `AddRowSet` needs to be associated with a `DiskRowSet` struct.
@@ -120,6 +122,9 @@ pub struct VersionManagerInner {
 
     /// Current epoch number.
     epoch: u64,
+
+    /// Tables whose `DropTable` entry is in the manifest.
+    dropped_tables: HashSet<u32>,
 }
 
 /// Manages the state history of the storage engine and vacuum the stale files on disk.
@@ -229,6 +234,7 @@ impl VersionManager {
         let mut entries;
         let current_epoch;
         let mut rowset_deletion_to_apply = vec![];
+        let mut dropped_tables = vec![];
 
         {
             // Hold the inner lock, so as to apply the changes to the current status, and add new
@@ -246,6 +252,20 @@ impl VersionManager {
                 .map(|x| x.as_ref().clone())
                 .unwrap_or_default();
 
+            // A dropped table takes no more changes. A transaction that started before the DROP
+            // and commits after it would otherwise log objects of a table that replay no longer
+            // knows, and the storage could not be opened again.
+            for op in &ops {
+                let table_id = match op {
+                    EpochOp::AddRowSet((entry, _)) => entry.table_id.table_id,
+                    EpochOp::AddDV((entry, _)) => entry.table_id.table_id,
+                    _ => continue,
+                };
+                if inner.dropped_tables.contains(&table_id) {
+                    return Err(TracedStorageError::not_found("table", table_id));
+                }
+            }
+
             // Store entries to be committed into the manifest
             entries = Vec::with_capacity(ops.len());
 
@@ -257,7 +277,10 @@ impl VersionManager {
                     EpochOp::CreateTable(entry) => {
                         entries.push(ManifestOperation::CreateTable(entry))
                     }
-                    EpochOp::DropTable(entry) => entries.push(ManifestOperation::DropTable(entry)),
+                    EpochOp::DropTable(entry) => {
+                        dropped_tables.push(entry.table_id.table_id);
+                        entries.push(ManifestOperation::DropTable(entry))
+                    }
 
                     // For other operations, maintain the snapshot in version manager
                     EpochOp::AddRowSet((entry, rowset)) => {
@@ -304,6 +327,7 @@ impl VersionManager {
         inner
             .rowset_deletion_to_apply
             .insert(epoch, rowset_deletion_to_apply);
+        inner.dropped_tables.extend(dropped_tables);
 
         Ok(epoch)
     }
